@@ -207,7 +207,11 @@ def cc(ctx, rel, out=None, extra=(), opt=None):
 
 
 def link_reloc(ctx, objs, out):
-    rc, o, _, _ = run(['ld', '-r', '-o', out] + objs)
+    # merge the compiler's .rodata.* / .text.* sub-sections so that the front end sees one .text and one .rodata
+    script = os.path.join(ctx.scratch, 'merge.ld')
+    if not os.path.exists(script):
+        open(script, 'w').write('SECTIONS { .text : { *(.text .text.*) } .rodata : { *(.rodata .rodata.*) } .data : { *(.data .data.*) } .bss : { *(.bss .bss.* COMMON) } }\n')
+    rc, o, _, _ = run(['ld', '-r', '-T', script, '-o', out] + objs)
     if rc != 0:
         raise Inconclusive('ld -r failed: ' + o[-500:])
     return out
